@@ -18,6 +18,7 @@ import (
 	"github.com/hashicorp/hcl/v2/hclparse"
 	"os"
 	"os/exec"
+	"regexp"
 	"sort"
 	"strconv"
 	"strings"
@@ -257,6 +258,43 @@ func c20Digest(seed uint64) string {
 			un = mk(false)
 		}
 		fmt.Fprintf(&b, "pg realm (enum name not shared)\n%s\npg realm (enum name shared)\n%s\n", un, sh)
+	}
+	// plans of other kinds through the same (package-level) planners: an in-place ALTER for every case, a DROP
+	// TABLE / a table rebuild only for some - whatever a planner keeps from one call to the next shows up as a
+	// plan that depends on the cases planned before it
+	for di, d := range []string{"mysql", "postgres", "sqlite"} {
+		s, _ := c20Schema(seed, d)
+		pl, _, _ := plannerOf(d)
+		ity := map[string]string{"mysql": "int", "postgres": "integer", "sqlite": "integer"}[d]
+		sets := map[string][]schema.Change{
+			"alter": {&schema.ModifyTable{T: s.Tables[0], Changes: []schema.Change{&schema.AddColumn{C: schema.NewNullIntColumn("added_later", ity)}}}},
+		}
+		if int(seed%3) == di {
+			sets["drop"] = []schema.Change{&schema.DropTable{T: s.Tables[len(s.Tables)-1]}}
+			if len(s.Tables[0].Columns) > 1 {
+				sets["drop-column"] = []schema.Change{&schema.ModifyTable{T: s.Tables[0], Changes: []schema.Change{&schema.DropColumn{C: s.Tables[0].Columns[len(s.Tables[0].Columns)-1]}}}}
+			}
+		}
+		for _, k := range []string{"drop", "drop-column", "alter"} {
+			cs, ok := sets[k]
+			if !ok {
+				continue
+			}
+			func() {
+				defer func() {
+					if p := recover(); p != nil {
+						fmt.Fprintf(&b, "%s %s plan panic %v\n", d, k, p)
+					}
+				}()
+				plan, err := pl.PlanChanges(context.Background(), "p", cs)
+				fmt.Fprintf(&b, "%s %s plan err=%v\n", d, k, err)
+				if err == nil {
+					for _, c := range plan.Changes {
+						b.WriteString(c.Cmd + ";\n")
+					}
+				}
+			}()
+		}
 	}
 	// the same change values planned twice
 	for _, d := range []string{"mysql", "postgres"} {
@@ -500,6 +538,10 @@ func runC20(e *Env) error {
 			e.Res.Violate("failing-input", "declaration-order-changes-statements", fmt.Sprintf("seed %d: permuting the HCL blocks changes the statements (not only their order): %s", s, firstDiff(strings.Join(sa, "\n"), strings.Join(sb, "\n"))), "Props.C20 plan_decl_order", map[string]any{"seed": s})
 		}
 	}
+	// multi-schema documents (MySQL, PostgreSQL): the same blocks in every order give the same outcome - the same
+	// error, or the same statements and reference targets; references are qualified, unqualified-unique and
+	// unqualified-ambiguous (two schemas hold a table of that name)
+	c20RealmOrder(e)
 	// the same schema split over several HCL files (names sharing a numeric prefix, differing only in
 	// zero padding, in sub-directories): evaluating the same files again and again gives the same realm
 	for _, s := range seeds {
@@ -619,6 +661,111 @@ func runC20(e *Env) error {
 		}
 	}
 	return nil
+}
+
+var reHCLPos = regexp.MustCompile(`:?\d+,\d+-\d+:?`)
+
+// c20RealmOrder: see the call site.
+func c20RealmOrder(e *Env) {
+	ity := map[string]string{"mysql": "int", "postgres": "integer"}
+	for _, d := range []string{"mysql", "postgres"} {
+		tbl1 := func(sch, name, extra string) string {
+			return fmt.Sprintf("table %q {\n  schema = schema.%s\n  column \"id\" {\n    type = %s\n  }\n  column \"ref\" {\n    null = true\n    type = %s\n  }\n  primary_key {\n    columns = [column.id]\n  }\n%s}\n", name, sch, ity[d], ity[d], extra)
+		}
+		tbl := func(sch, name, extra string) string {
+			return fmt.Sprintf("table %q %q {\n  schema = schema.%s\n  column \"id\" {\n    type = %s\n  }\n  column \"ref\" {\n    null = true\n    type = %s\n  }\n  primary_key {\n    columns = [column.id]\n  }\n%s}\n", sch, name, sch, ity[d], ity[d], extra)
+		}
+		fk := func(name, target string) string {
+			return fmt.Sprintf("  foreign_key %q {\n    columns     = [column.ref]\n    ref_columns = [%s.column.id]\n    on_delete   = CASCADE\n  }\n", name, target)
+		}
+		for vi, variant := range []struct {
+			name   string
+			blocks []string
+		}{
+			{"unqualified reference to a table name held by two schemas", []string{
+				"schema \"a\" {\n}\n", "schema \"b\" {\n}\n",
+				tbl1("a", "users", ""), tbl1("b", "users", ""),
+				tbl1("b", "pets", fk("owner", "table.users")),
+			}},
+			{"qualified references to tables of both schemas", []string{
+				"schema \"a\" {\n}\n", "schema \"b\" {\n}\n",
+				tbl("a", "users", ""), tbl("b", "users", ""),
+				tbl("b", "pets", fk("owner", "table.a.users")), tbl("a", "cats", fk("owner", "table.b.users")),
+			}},
+			{"unqualified reference to a table name held by one schema", []string{
+				"schema \"a\" {\n}\n", "schema \"b\" {\n}\n",
+				tbl1("a", "users", ""), tbl1("b", "accounts", ""),
+				tbl1("b", "pets", fk("owner", "table.users")), tbl1("a", "cats", fk("owner", "table.accounts")),
+			}},
+		} {
+			outcome := func(doc string) string {
+				var r schema.Realm
+				var err error
+				if d == "mysql" {
+					err = mysql.EvalHCLBytes([]byte(doc), &r, nil)
+				} else {
+					err = postgres.EvalHCLBytes([]byte(doc), &r, nil)
+				}
+				if err != nil {
+					return "error: " + reHCLPos.ReplaceAllString(err.Error(), "")
+				}
+				var targets []string
+				for _, sc := range r.Schemas {
+					for _, t := range sc.Tables {
+						for _, f := range t.ForeignKeys {
+							rs := ""
+							if f.RefTable != nil && f.RefTable.Schema != nil {
+								rs = f.RefTable.Schema.Name
+							}
+							targets = append(targets, fmt.Sprintf("%s.%s.%s -> %s.%s", sc.Name, t.Name, f.Symbol, rs, f.RefTable.Name))
+						}
+					}
+				}
+				sort.Strings(targets)
+				var cs []schema.Change
+				pl, _, _ := plannerOf(d)
+				if d == "mysql" {
+					cs, err = mysql.DefaultDiff.RealmDiff(schema.NewRealm(), &r)
+				} else {
+					cs, err = postgres.DefaultDiff.RealmDiff(schema.NewRealm(), &r)
+				}
+				if err != nil {
+					return "diff error: " + err.Error()
+				}
+				plan, err := pl.PlanChanges(context.Background(), "p", cs)
+				if err != nil {
+					return "plan error: " + err.Error()
+				}
+				var cmds []string
+				for _, c := range plan.Changes {
+					cmds = append(cmds, c.Cmd)
+				}
+				sort.Strings(cmds)
+				return strings.Join(targets, "\n") + "\n" + strings.Join(cmds, ";\n")
+			}
+			first := outcome(strings.Join(variant.blocks, "\n"))
+			pr := hx.NewRand(e.Seed, fmt.Sprintf("realm-order-%s-%d", d, vi))
+			orders := 40
+			if e.Thorough() {
+				orders = 400
+			}
+			for k := 0; k < orders; k++ {
+				perm := append([]string{}, variant.blocks...)
+				hx.Shuffle(pr, perm)
+				if k == 0 {
+					// the exact reverse
+					for i := range perm {
+						perm[i] = variant.blocks[len(perm)-1-i]
+					}
+				}
+				e.Res.Count(fmt.Sprintf("realm-order:%s:%d:%d", d, vi, k), true, "hcl-permutation", "realm-order:"+d)
+				if got := outcome(strings.Join(perm, "\n")); got != first {
+					e.Res.Violate("failing-input", "declaration-order-changes-result", fmt.Sprintf("%s, %s: the same blocks in another order give another result:\n--- as listed ---\n%s\n--- permuted ---\n%s\n--- permuted document ---\n%s", d, variant.name, trunc(first, 600), trunc(got, 600), trunc(strings.Join(perm, "\n"), 1500)), "Props.C20 plan_decl_order", map[string]any{"dialect": d, "variant": variant.name, "document": strings.Join(perm, "\n")})
+					break
+				}
+			}
+		}
+	}
 }
 
 // splitHCLBlocks splits a marshalled HCL document into its top-level blocks.
